@@ -15,14 +15,6 @@ Record perm_case := {
   pc_probe_obs : list (list string * bool)  (* path -> allowed, by walking IsAllowed as filterFields does *)
 }.
 
-(* how filterFields consults a tree along a path: allow-all short-circuits, else IsAllowed *)
-Fixpoint walk_allowed (a : af) (p : list string) : bool :=
-  match p with
-  | [] => true
-  | f :: p' => if af_all a then true else
-               let '(ok, sub) := is_allowed a f in if ok then walk_allowed sub p' else false
-  end.
-
 Definition probes (a : af) : list (list string) :=
   let ps := af_paths a in ps ++ map (fun p => p ++ ["zz"]) ps.
 
